@@ -172,6 +172,10 @@ DEV_INC = {
 def assemble(mode, items):
     """items: list of (Kernel, translation result).  Returns C++ source of the test TU."""
     tu = ['#include "rt.hpp"', '#include "emu.hpp"', "#include <cmath>", "#include <cstdint>", "#include <cstddef>"]
+    if mode in ("serial", "openmp"):
+        tu.append("#define RT_MM(name)")
+    else:
+        tu.append("#define RT_MM(name) occa::modeMemory_t MM_##name = { (void*) T_##name };")
     tu.append(DEV_INC[mode])
     # ---- reference functions first (plain C++, before any keyword macro is active? they are; keep them simple)
     dev, lau, tr, drv = [], [], [], []
@@ -183,7 +187,8 @@ def assemble(mode, items):
     if mode not in ("serial", "openmp"):
         tu.append("#include <occa/core/kernel.hpp>")
         for k, res in items:
-            lau.append("// ---- %s : launcher\n%s" % (k.name, res["launcher"]))
+            # the launcher source repeats the kernel file's helper functions: keep it in its own namespace
+            lau.append("// ---- %s : launcher\nnamespace L_%s {\n%s\n}" % (k.name, k.name, res["launcher"]))
             tr.append(trampolines(k, mode, res["device"]))
         tu.append("\n".join(tr))
         tu.append("\n".join(lau))
@@ -203,7 +208,7 @@ def assemble(mode, items):
                 margs = []
                 for (ct, nm, isptr), c in zip(k.params, call):
                     margs.append(("&MM_" + c[1:]) if isptr else c)
-                body.append("    %s(dk_%s%s);" % (k.name, k.name, "".join(", " + m for m in margs)))
+                body.append("    L_%s::%s(dk_%s%s);" % (k.name, k.name, k.name, "".join(", " + m for m in margs)))
             body.append("    std::string err = emu::lastError();")
             body.append(k.compare)
             body.append('    rt::report("%s", %d, R, rt::rec(), err, false);' % (k.name, ti))
@@ -228,7 +233,7 @@ def compile_tu(src_text, path_base, mode, sanitize=False):
     if mode == "openmp":
         cmd.insert(1, "-fopenmp")
     if sanitize:
-        cmd.insert(1, "-fsanitize=bounds")
+        cmd[1:1] = ["-fsanitize=bounds", "-fno-sanitize-recover=bounds"]
     r = vlib.sh(cmd)
     return (exe if r.returncode == 0 else None), r.stdout
 
@@ -288,7 +293,7 @@ class Spec:
 
 
 # ------------------------------------------------------------------------------------------------
-def run_batch(tr, wd, kernels, tag, modes=MODES, known_filter=None, excl=None):
+def run_batch(tr, wd, kernels, tag, modes=MODES, known_filter=None, excl=None, spec=None):
     """translate + build + run a list of Kernel objects for all modes.  Returns list of failure dicts."""
     excl = excl if excl is not None else {}
     reqs = [(k.name, mode, k.okl, "") for k in kernels for mode in modes]
@@ -307,16 +312,24 @@ def run_batch(tr, wd, kernels, tag, modes=MODES, known_filter=None, excl=None):
                 fails.append({"kernel": k.name, "mode": mode, "what": "translator rejected a valid kernel: " + re.sub(r"\x1b\[[0-9;]*m", "", r["diag"])[-300:].replace("\n", " | ")})
             else:
                 items.append((k, r))
+                txt = spec.static_check(k, mode, r) if (spec is not None and hasattr(spec, "static_check")) else None
+                if txt:
+                    kid = known_filter(k, mode, txt) if known_filter else None
+                    if kid:
+                        excl[kid] = excl.get(kid, 0) + 1
+                    else:
+                        fails.append({"kernel": k.name, "mode": mode, "what": txt})
         if not items:
             return fails
+        sanitize = bool(spec is not None and getattr(spec, "sanitize_bounds", False))
         base = os.path.join(wd, "%s_%s" % (tag, mode))
-        exe, log = compile_tu(assemble(mode, items), base, mode)
+        exe, log = compile_tu(assemble(mode, items), base, mode, sanitize)
         groups = [items]
         if exe is None:
             # isolate the case(s) that do not compile
             groups = []
             for j, it in enumerate(items):
-                e1, l1 = compile_tu(assemble(mode, [it]), base + "_%d" % j, mode)
+                e1, l1 = compile_tu(assemble(mode, [it]), base + "_%d" % j, mode, sanitize)
                 if e1 is None:
                     errs = [x for x in l1.splitlines() if "error" in x][:3]
                     fails.append({"kernel": it[0].name, "mode": mode, "what": "translated code does not compile: " + " | ".join(errs)[:400]})
@@ -368,7 +381,7 @@ def reduce_failure(tr, wd, spec, desc, mode, tagbase, known_filter=None):
             budget -= 1
             n += 1
             k = spec.render(cand, "r%d" % n)
-            if run_batch(tr, wd, [k], "%s_r%d" % (tagbase, n), modes=[mode], known_filter=known_filter):
+            if run_batch(tr, wd, [k], "%s_r%d" % (tagbase, n), modes=[mode], known_filter=known_filter, spec=spec):
                 cur = cand
                 changed = True
                 break
@@ -395,7 +408,7 @@ def run_tv(spec, prop, tier, replay, t0):
             k = spec.render(d["desc"], "rp")
             modes = [d["mode"]] if d.get("mode") else modes_all
             kf = None if d.get("known") else kfilter
-            return run_batch(tr, wd, [k], "rp%d" % (abs(hash(path)) % 10000), modes=modes, known_filter=kf)
+            return run_batch(tr, wd, [k], "rp%d" % (abs(hash(path)) % 10000), modes=modes, known_filter=kf, spec=spec)
         if replay:
             fails = replay_file(os.path.abspath(replay))
             for f in fails:
@@ -460,7 +473,7 @@ def run_tv(spec, prop, tier, replay, t0):
                 if len(out.samples) < 5 and i == 3:
                     out.samples.append(k.okl)
             state["n"] += len(kernels)
-            fails = run_batch(tr, wd, kernels, "b%d" % b, modes=modes_all, known_filter=kfilter, excl=state["excluded"])
+            fails = run_batch(tr, wd, kernels, "b%d" % b, modes=modes_all, known_filter=kfilter, excl=state["excluded"], spec=spec)
             byname = {k.name: k for k in kernels}
             for f in fails:
                 f["desc"] = byname[f["kernel"]].meta
@@ -473,7 +486,7 @@ def run_tv(spec, prop, tier, replay, t0):
         def category(f):
             fam = "host" if f["mode"] in ("serial", "openmp") else "launcher"
             w = f["what"]
-            for key in ("does not compile", "rejected", "crashed", "hang", "huge", "not a multiple", "overrun", "signal=", "exited abnormally"):
+            for key in ("does not compile", "rejected", "crashed", "hang", "huge", "not a multiple", "overrun", "signal=", "exited abnormally", "atomic primitive"):
                 if key in w:
                     return fam, key
             return fam, "wrong iteration set"
